@@ -36,10 +36,12 @@ def judge(rep, cases, obs, probes_fn, keyfn, seed):
 
 
 def probe(traces, pred, mutate, name):
-    t = next((t for t in traces if pred(t)), None)
-    if t is None:
-        return []
-    p = copy.deepcopy(t)
-    p["id"] = "probe." + name
-    mutate(p)
-    return [p]
+    for t in traces:
+        if not pred(t):
+            continue
+        p = copy.deepcopy(t)
+        mutate(p)
+        if p != t:              # the corruption must change something (rotating [2, 2] does not)
+            p["id"] = "probe." + name
+            return [p]
+    return []
